@@ -505,7 +505,23 @@ static bool run_case2(std::string const& op, Toks& in, Out& impl, Out& ref)
         return true;
     }
     if (op == "ymdl_bad") {
-        // month outside 1..12: the values are unspecified (no reference), but the calls must be defined
+        // month outside 1..12: ok() is false, and day(), year_month_day{ymdl}, the sys_days / local_days conversions
+        // must be DEFINED (their values are unspecified and not printed here: see ymdl_badv). Under ASan/UBSan a read
+        // past the last-day table kills the child, so the case fails against the reference with this input.
+        auto y = static_cast<int>(in.num()); auto m = static_cast<unsigned>(in.num());
+        guarded(impl, [&](Out& o) {
+            auto x = ec::year_month_day_last{ec::year{y}, ec::month_day_last{ec::month{m}}};
+            auto v = ec::year_month_day{x};
+            volatile i64 sink = static_cast<unsigned>(x.day()) + static_cast<unsigned>(v.day())
+                              + cnt(static_cast<ec::sys_days>(x)) + cnt(static_cast<ec::local_days>(x));
+            (void)sink;
+            o.tok("ok").b(x.ok());
+        });
+        ref.tok("ok").b(sc::year_month_day_last{sc::year{y}, sc::month_day_last{sc::month{m}}}.ok());
+        return true;
+    }
+    if (op == "ymdl_badv") {
+        // the same calls, values printed: unspecified by the standard (no reference), must match the model
         auto y = static_cast<int>(in.num()); auto m = static_cast<unsigned>(in.num());
         guarded(impl, [&](Out& o) {
             auto x = ec::year_month_day_last{ec::year{y}, ec::month_day_last{ec::month{m}}};
